@@ -2,7 +2,7 @@
 From Coq Require Import ZArith List Bool String.
 From VD Require Import Base.Bytes Base.Text Base.Sexp Base.PixFmt Base.Struct.
 From VD Require Import Model.ClientMsgs Model.Keys Model.Pointer Model.ClientOps Spec.C2S.
-From VD Require Import Model.Server.
+From VD Require Import Model.Server Extract.DispatchRfb.
 Import ListNotations.
 Open Scope Z_scope.
 
@@ -85,4 +85,5 @@ Definition dispatch (name : list Z) (a : sexp) : sexp :=
   if name_is name "client_ops" then d_client_ops a
   else if name_is name "parse_c2s" then d_parse_c2s a
   else if name_is name "parse_server" then d_parse_server a
+  else if name_is name "rfb_run" then d_rfb_run a
   else sErr.
